@@ -140,3 +140,11 @@ def t_calc_emissions(world):
 
 def tasks(tier):
     return [('collect', t_collect), ('emissions', t_emissions), ('calc_emissions', t_calc_emissions)]
+
+
+
+# ---------------------------------------------------------------- shared with C08.b: the Anchor constraint sets of this property's instructions (signer role, has_one = group, vault / PDA bindings)
+_t_shared_structs = tasks
+def tasks(tier):
+    from specs.C08 import shared_struct_tasks
+    return _t_shared_structs(tier) + shared_struct_tasks('C19.b.', ['LendingPoolCollectBankFees', 'LendingPoolWithdrawFees', 'LendingPoolWithdrawInsurance', 'LendingPoolWithdrawFeesPermissionless', 'LendingPoolUpdateFeesDestinationAccount', 'LendingAccountWithdrawEmissions', 'LendingAccountWithdrawEmissionsPermissionless', 'LendingAccountSettleEmissions', 'LendingPoolSetupEmissions', 'LendingPoolUpdateEmissionsParameters', 'MarginfiAccountUpdateEmissionsDestinationAccount'])
